@@ -381,8 +381,8 @@ func (x *exec) binop(op token.Token, a, b Value, xt, yt types.Type, s *State, po
 		case token.NEQ:
 			return c.Ne(at, bt)
 		case token.ADD:
-			r := c.App("str.concat", Str, at, bt)
-			r.AddFact(c.Eq(c.App("str.len", Int, r), c.Add(e.strLen(at), e.strLen(bt))))
+			r := c.App("s.concat", Str, at, bt)
+			r.AddFact(c.Eq(c.App("s.len", Int, r), c.Add(e.strLen(at), e.strLen(bt))))
 			return r
 		case token.LSS:
 			return e.strLess(at, bt)
@@ -553,16 +553,16 @@ func (x *exec) ptrEq(a, b PtrV) *Term {
 
 func (e *Engine) strLess(a, b *Term) *Term {
 	c := e.C
-	if _, ok := c.Funs["str.lt"]; !ok {
-		c.Declare("str.lt", []*Sort{Str, Str}, Bool)
+	if _, ok := c.Funs["s.lt"]; !ok {
+		c.Declare("s.lt", []*Sort{Str, Str}, Bool)
 		p, q, r := c.BoundVar("p", Str), c.BoundVar("q", Str), c.BoundVar("r", Str)
-		lt := func(u, v *Term) *Term { return c.App("str.lt", Bool, u, v) }
-		c.AddAxiom("str.lt-irrefl", []string{"str.lt"}, c.Quant("forall", []*Term{p}, c.Not(lt(p, p)), [][]*Term{{lt(p, p)}}))
-		c.AddAxiom("str.lt-total", []string{"str.lt"}, c.Quant("forall", []*Term{p, q}, c.Or(lt(p, q), lt(q, p), c.Eq(p, q)), [][]*Term{{lt(p, q)}}))
-		c.AddAxiom("str.lt-asym", []string{"str.lt"}, c.Quant("forall", []*Term{p, q}, c.Not(c.And(lt(p, q), lt(q, p))), [][]*Term{{lt(p, q)}}))
-		c.AddAxiom("str.lt-trans", []string{"str.lt"}, c.Quant("forall", []*Term{p, q, r}, c.Implies(c.And(lt(p, q), lt(q, r)), lt(p, r)), [][]*Term{{lt(p, q), lt(q, r)}}))
+		lt := func(u, v *Term) *Term { return c.App("s.lt", Bool, u, v) }
+		c.AddAxiom("s.lt-irrefl", []string{"s.lt"}, c.Quant("forall", []*Term{p}, c.Not(lt(p, p)), [][]*Term{{lt(p, p)}}))
+		c.AddAxiom("s.lt-total", []string{"s.lt"}, c.Quant("forall", []*Term{p, q}, c.Or(lt(p, q), lt(q, p), c.Eq(p, q)), [][]*Term{{lt(p, q)}}))
+		c.AddAxiom("s.lt-asym", []string{"s.lt"}, c.Quant("forall", []*Term{p, q}, c.Not(c.And(lt(p, q), lt(q, p))), [][]*Term{{lt(p, q)}}))
+		c.AddAxiom("s.lt-trans", []string{"s.lt"}, c.Quant("forall", []*Term{p, q, r}, c.Implies(c.And(lt(p, q), lt(q, r)), lt(p, r)), [][]*Term{{lt(p, q), lt(q, r)}}))
 	}
-	return c.App("str.lt", Bool, a, b)
+	return c.App("s.lt", Bool, a, b)
 }
 
 // convert implements Go conversions between basic types.
@@ -627,8 +627,8 @@ func (x *exec) convert(v Value, from, to types.Type, s *State) Value {
 			return PoisonV{"string(non-bytes)"}
 		}
 		h := e.heapGet(s, elemKey(el), Array(Int, Array(Int, BV8)))
-		r := c.App("str.frombytes", Str, c.Select(h, sv.Arr), sv.Off, sv.Len)
-		r.AddFact(c.Eq(c.App("str.len", Int, r), sv.Len))
+		r := c.App("s.frombytes", Str, c.Select(h, sv.Arr), sv.Off, sv.Len)
+		r.AddFact(c.Eq(c.App("s.len", Int, r), sv.Len))
 		return r
 	case rf == RStr && rt == RSlice:
 		st := v.(*Term)
@@ -650,15 +650,15 @@ func (x *exec) convert(v Value, from, to types.Type, s *State) Value {
 			row = c.Fresh("strbytes", Array(Int, BV8))
 			k := c.BoundVar("k", Int)
 			sel := c.Select(row, k)
-			row.AddFact(c.Quant("forall", []*Term{k}, c.Implies(c.And(c.Le(c.IntC(0), k), c.Lt(k, n)), c.Eq(sel, c.App("str.at", BV8, st, k))), [][]*Term{{sel}}))
+			row.AddFact(c.Quant("forall", []*Term{k}, c.Implies(c.And(c.Le(c.IntC(0), k), c.Lt(k, n)), c.Eq(sel, c.App("s.at", BV8, st, k))), [][]*Term{{sel}}))
 		}
 		e.heapSet(s, key, c.Store(h, arr, row))
 		s.alloc = c.Add(s.alloc, n)
 		return SliceV{Arr: c.Ite(c.Eq(n, c.IntC(0)), arr, arr), Off: c.IntC(0), Len: n, Cap: n}
 	case rf == RInt && rt == RStr:
-		return c.App("str.fromrune", Str, v.(*Term))
+		return c.App("s.fromrune", Str, v.(*Term))
 	case rf == RByte && rt == RStr:
-		return c.App("str.fromrune", Str, c.BV2Nat(v.(*Term)))
+		return c.App("s.fromrune", Str, c.BV2Nat(v.(*Term)))
 	case rf == rt:
 		return v
 	}
